@@ -9,6 +9,7 @@ import (
 	"runtime/debug"
 	"sort"
 	"sync"
+	"sync/atomic"
 	"time"
 
 	asv1 "github.com/pingcap/advanced-statefulset/client/apis/apps/v1"
@@ -26,6 +27,7 @@ import (
 	corelisters "k8s.io/client-go/listers/core/v1"
 	"k8s.io/client-go/tools/cache"
 	"k8s.io/client-go/util/retry"
+	"k8s.io/client-go/util/workqueue"
 	"k8s.io/klog/v2"
 
 	"verif/harness/simapi"
@@ -113,6 +115,7 @@ type World struct {
 	recN     int
 	Restarts int
 	Live     bool
+	LiveQ    *CountingQueue
 	// CatchUp: when set, the set and claim caches catch up (pending events are delivered)
 	// right after a controller call on that resource failed, i.e. while the reconcile is
 	// still running - what a live informer does. Pod events are never delivered
@@ -165,8 +168,34 @@ func (w *World) build() {
 	if !w.Live {
 		w.Q = NewVQueue()
 		w.Ctl.VerifSetQueue(w.Q)
+	} else {
+		// live mode keeps the controller's own queue, wrapped only to know how many items are being processed
+		w.LiveQ = &CountingQueue{RateLimitingInterface: w.Ctl.VerifQueue()}
+		w.Ctl.VerifSetQueue(w.LiveQ)
 	}
 }
+
+// CountingQueue delegates everything to the real work queue and counts the items between Get and Done.
+type CountingQueue struct {
+	workqueue.RateLimitingInterface
+	inflight atomic.Int64
+}
+
+func (q *CountingQueue) Get() (interface{}, bool) {
+	item, shutdown := q.RateLimitingInterface.Get()
+	if !shutdown {
+		q.inflight.Add(1)
+	}
+	return item, shutdown
+}
+
+func (q *CountingQueue) Done(item interface{}) {
+	q.RateLimitingInterface.Done(item)
+	q.inflight.Add(-1)
+}
+
+// InFlight is the number of keys a worker is processing right now.
+func (q *CountingQueue) InFlight() int64 { return q.inflight.Load() }
 
 // Reset empties API, caches, queue and pending events for the next scenario.
 func (w *World) Reset() {
